@@ -1,5 +1,5 @@
 import MxModel.Proofs.C3
-import MxModel.Proofs.StructMechLive
+import MxModel.Proofs.StructMechHistory
 /-!
 # C03 – derived members equal re-derivation from defined members along the C3 order
 
@@ -297,6 +297,17 @@ theorem mech_state_after_newCells (kw : List String) (ops : List Op) (p : Path) 
   rw [this]
   rfl
 
+/-- **the definitions of a reachable state are exactly those the accepted operations of the history made
+and no later accepted operation removed** (`SM.specDefs`: a fold over the history that consults the
+mechanism's state only for accept/refuse and for the name an unnamed cells gets; histories without
+`renameCells`, whose effect on the two names involved is stated only as a frame).  With
+`mech_refines_derivation` and the base lists (`mech_accepted_effect`) the whole reachable state is a
+function of the history. -/
+theorem mech_definitions_from_history (kw : List String) (ops : List Op)
+    (hr : ∀ op ∈ ops, op.isRename = false) (a : Attr) (q : Path) (n : String) :
+    (St.run kw {} ops).defd a q n = specDefs kw {} (fun _ _ _ => none) ops a q n :=
+  defd_run kw ops hr a q n
+
 /-- **liveness of the plain case**: in every reachable state a cells under a valid name that is used for
 nothing can be created in every existing space, and is then defined there -/
 theorem mech_fresh_cells_accepted (kw : List String) (ops : List Op) (p : Path) (n : String) (v : Nat)
@@ -347,6 +358,10 @@ example : Unused (St.run [] {} diamondOps) "g" ∧ ((St.run [] {} diamondOps).ac
       · have := congrArg List.getLast? h
         simp at this
   · decide
+example : specDefs [] {} (fun _ _ _ => none) (diamondOps ++ [.delCells ["A"] "f", .delCells ["D"] "f"]) .cells ["C"] "f"
+    = some 2 := by decide
+example : specDefs [] {} (fun _ _ _ => none) (diamondOps ++ [.delCells ["A"] "f", .delCells ["D"] "f"]) .cells ["A"] "f"
+    = none := by decide
 -- an operation that is refused (`E(A, B)` has no linearisation)
 example : ((St.run [] {} diamondOps).step [] (.newSpace [] "E" [["A"], ["B"]] [])).2 = false := by decide
 
